@@ -225,8 +225,8 @@ DEC = 'ACTG'
 
 def spec_dict(records, k, rc, min_count=1, qual_filter='NoFilter', min_qual=0):
     """records: [(seq, qual|None)].  -> {split k-mer: IUPAC code of the middle bases observed}; for reads an observation
-    counts only if its middle base passes the quality rule, and a k-mer is kept from its min_count-th counted observation on
-    (bases of the earlier observations are not recorded)"""
+    counts only if it passes the quality rule, and a (split k-mer, middle base) combination is recorded from the min_count-th
+    counted observation of its full k-mer (or its reverse complement) on"""
     h = (k - 1) // 2
     seen = {}
     cnt = {}
@@ -239,13 +239,16 @@ def spec_dict(records, k, rc, min_count=1, qual_filter='NoFilter', min_qual=0):
             w = S[pos - h:pos + h + 1]
             rw = ''.join(COMP[c] for c in reversed(w))
             pal = rc and (w[:h] + w[h + 1:]) == (rw[:h] + rw[h + 1:])
-            if qual is not None and min_count > 1:
-                cnt[v] = cnt.get(v, 0) + 1
-                if cnt[v] < min_count:
-                    continue
             bases = {DEC[m]}
             if pal:
                 bases.add(COMP[DEC[m]])
+            if qual is not None and min_count > 1:
+                # the count is per full k-mer (arms and middle base) together with its reverse complement: per (split k-mer, middle
+                # base) in canonical form, the two complementary middle bases of a self-reverse-complement pair of arms counted together
+                ck = (v, frozenset(bases))
+                cnt[ck] = cnt.get(ck, 0) + 1
+                if cnt[ck] < min_count:
+                    continue
             seen.setdefault(v, set()).update(bases)
     return {v: IUPAC_CODE[frozenset(b)] for v, b in seen.items()}
 
@@ -318,7 +321,7 @@ def check_dict_reads(facts, chk, rule, tier):
     MQ = 20
     lo, hi = 33 + MQ - 1, 33 + MQ
     reads1 = ['ACCACAG', 'CCACAGT', 'GNTTGACCAC', 'TTGACCA']     # third read: windows after an N that recur in other reads
-    reads2 = ['CTGTGGT', 'ACCACTG', 'ACNACAG']          # first = reverse complement of a read in file 1
+    reads2 = ['CTGTGGT', 'ACCACTG', 'ACNACAG', 'ACTAC']          # first = reverse complement of a read in file 1; last: arms seen three times with middle C, once with T
     import itertools
     qpats = [None, 'allhi', 'mid-low', 'one-low']
     for mc in (1, 2, 3):
